@@ -312,6 +312,30 @@ fn views_for<T: Copy + PartialEq + std::fmt::Debug + 'static>(
             rep.oracle_fail(&tag, "slice-roundtrip-contents", json!({"orig": format!("{:?}", s), "back": format!("{:?}", back)}));
         }
     }
+    // empty sub-slices that point *into* a live buffer: pointer identity must survive the round trip
+    if len > 0 {
+        for k in [0usize, len / 2, len] {
+            let s: &[T] = &data[k..k];
+            let v: DiplomatSlice<T> = s.into();
+            let d: &[T] = &v;
+            let back: &[T] = v.into();
+            out.push(ViewCase { line: format!("(from-into {align} {SYM} 0)"), real: format!("{} {}", class(back.as_ptr() as usize, s.as_ptr() as usize), back.len()), numeric: false });
+            if back.as_ptr() != s.as_ptr() || d.as_ptr() != s.as_ptr() || !back.is_empty() {
+                rep.oracle_fail(&format!("{tag} empty-subslice at {k}"), "slice-roundtrip-pointer", json!({"offset_in_parent": k, "orig_ptr_offset": (s.as_ptr() as usize).wrapping_sub(data.as_ptr() as usize), "back_ptr_offset": (back.as_ptr() as usize).wrapping_sub(data.as_ptr() as usize)}));
+            }
+            let mut d2 = data.clone();
+            let base = d2.as_ptr() as usize;
+            let sm: &mut [T] = &mut d2[k..k];
+            let p = sm.as_ptr() as usize;
+            let vm: DiplomatSliceMut<T> = sm.into();
+            let dp = (&*vm).as_ptr() as usize;
+            let backm: &mut [T] = vm.into();
+            out.push(ViewCase { line: format!("(from-into {align} {SYM} 0)"), real: format!("{} {}", class(backm.as_ptr() as usize, p), backm.len()), numeric: false });
+            if backm.as_ptr() as usize != p || dp != p {
+                rep.oracle_fail(&format!("{tag} empty-mut-subslice at {k}"), "slice-roundtrip-pointer", json!({"orig": p - base, "back": (backm.as_ptr() as usize).wrapping_sub(base)}));
+            }
+        }
+    }
     // &mut [T] -> DiplomatSliceMut -> &mut [T], Deref/DerefMut
     {
         let mut d1 = data.clone();
@@ -341,8 +365,15 @@ fn views_for<T: Copy + PartialEq + std::fmt::Debug + 'static>(
         if d_len != 0 || dm != 0 || !back.is_empty() || !backm.is_empty() {
             rep.oracle_fail(&tag, "null-view-not-empty", json!({"deref_len": d_len}));
         }
-        let vo: DiplomatOwnedSlice<T> = unsafe { std::mem::transmute_copy(&raw) };
+        let mut vo: DiplomatOwnedSlice<T> = unsafe { std::mem::transmute_copy(&raw) };
         let ol = (&*vo).len();
+        {
+            let m: &mut [T] = &mut *vo;
+            out.push(ViewCase { line: format!("(into {align} 0 0)"), real: format!("{} {}", class(m.as_ptr() as usize, usize::MAX), m.len()), numeric: false });
+            if m.as_ptr().is_null() || !m.is_empty() {
+                rep.oracle_fail(&tag, "null-owned-view-deref-mut-not-an-empty-slice", json!({"ptr_is_null": m.as_ptr().is_null(), "len": m.len()}));
+            }
+        }
         let b: Box<[T]> = vo.into();
         out.push(ViewCase { line: format!("(owned-into {align} 0 0)"), real: format!("{} {}", class(b.as_ptr() as usize, usize::MAX), b.len()), numeric: false });
         if ol != 0 || !b.is_empty() {
